@@ -574,7 +574,7 @@ def run_path(fn, params, prefix, stats, solver_timeout_ms):
 
 
 def explore(fn, params, prefixes, budget_s, solver_timeout_ms=60000,
-            max_cex=8, seed=0):
+            max_cex=60, seed=0):
     """DFS from the given prefixes for at most budget_s seconds.
     Returns (stats, cex list, remaining prefixes)."""
     import random
@@ -590,7 +590,9 @@ def explore(fn, params, prefixes, budget_s, solver_timeout_ms=60000,
         if seed and len(pending) > 1:
             rnd.shuffle(pending)
         stack.extend(pending)
-        cex.extend(found)
+        for f in found:         # at most 3 candidates per failure class
+            if sum(1 for c in cex if c["key"] == f["key"]) < 3:
+                cex.append(f)
     return stats, cex, stack
 
 
